@@ -1,12 +1,93 @@
 /* Unit harness for the evaluator: real parser (config_parse), real expr_eval,
  * matches_interpolate, matches_inspect.  Every request runs in a forked child so
  * that parser globals start fresh and a crash is reported as a FAULT line. */
+#include "config.h"	/* first, as in every module: it selects the feature-test macros the system headers obey */
+#include <errno.h>
+#include <signal.h>
+#include <unistd.h>
+#include <sys/resource.h>
+#include <sys/wait.h>
 #include "message.c"
 #include "maildir.c"
 #include "time.c"
 #include "match.c"
 #include "expr.c"
+/*
+ * Injectable outcomes of the commands run by `command` conditions (and exec actions): util.c's exec() is compiled as it
+ * is - its fork, dup2, waitpid and status mapping run for real - but a program named "vstatus:..." is not looked up by
+ * execvp(3); the child ends, or the call fails, as the name says:
+ *
+ *   vstatus:exit:N     the program runs and exits with status N (0..255)
+ *   vstatus:signal:N   the program runs and is killed by signal N (no core file)
+ *   vstatus:errno:E    execvp fails with errno E (ENOENT, EACCES, ENOTDIR, ENOEXEC, ELOOP, ENOMEM, E2BIG, ETXTBSY)
+ *   vstatus:fork       fork fails with EAGAIN
+ *   vstatus:waitpid    the child runs and exits 0 but waitpid fails with ECHILD
+ *
+ * Every other name goes to the real execvp (true, false, a missing program).  The model side (Driver/Main.lean
+ * `commandOracle`) derives the value of exec() for these names from Model.execStatus.
+ */
+static int hx_forkfail, hx_waitfail;
+static pid_t hx_fork(void);
+static pid_t hx_waitpid(pid_t, int *, int);
+static int hx_execvp(const char *, char *const []);
+#define exec hx_util_exec
+#define fork hx_fork
+#define waitpid hx_waitpid
+#define execvp hx_execvp
 #include "util.c"
+#undef exec
+#undef fork
+#undef waitpid
+#undef execvp
+
+static pid_t hx_fork(void) {
+	if (hx_forkfail) { errno = EAGAIN; return -1; }
+	return fork();
+}
+
+static pid_t hx_waitpid(pid_t pid, int *status, int options) {
+	pid_t r = waitpid(pid, status, options);
+	if (hx_waitfail) { errno = ECHILD; return -1; }
+	return r;
+}
+
+static int hx_execvp(const char *file, char *const argv[]) {
+	static const struct { const char *name; int no; } errs[] = {
+		{ "ENOENT", ENOENT }, { "EACCES", EACCES }, { "ENOTDIR", ENOTDIR }, { "ENOEXEC", ENOEXEC }, { "ELOOP", ELOOP },
+		{ "ENOMEM", ENOMEM }, { "E2BIG", E2BIG }, { "ETXTBSY", ETXTBSY },
+	};
+	size_t i;
+	if (strncmp(file, "vstatus:", 8) != 0)
+		return execvp(file, argv);
+	file += 8;
+	if (strncmp(file, "exit:", 5) == 0)
+		_exit(atoi(file + 5));
+	if (strncmp(file, "signal:", 7) == 0) {
+		struct rlimit rl = { 0, 0 };
+		int sig = atoi(file + 7);
+		setrlimit(RLIMIT_CORE, &rl);
+		signal(sig, SIG_DFL);
+		kill(getpid(), sig);
+		_exit(98);	/* the signal did not terminate the process */
+	}
+	if (strncmp(file, "errno:", 6) == 0) {
+		for (i = 0; i < sizeof(errs) / sizeof(errs[0]); i++)
+			if (strcmp(file + 6, errs[i].name) == 0) { errno = errs[i].no; return -1; }
+	}
+	if (strcmp(file, "fork") == 0 || strcmp(file, "waitpid") == 0)
+		_exit(0);
+	errno = ENOENT;
+	return -1;
+}
+
+int exec(char *const *argv, int fdin) {
+	int r;
+	hx_forkfail = argv[0] != NULL && strcmp(argv[0], "vstatus:fork") == 0;
+	hx_waitfail = argv[0] != NULL && strcmp(argv[0], "vstatus:waitpid") == 0;
+	r = hx_util_exec(argv, fdin);
+	hx_forkfail = hx_waitfail = 0;
+	return r;
+}
 #include "macro.c"
 #include "conf.h"
 #include "proto.h"
